@@ -126,6 +126,8 @@ func main() {
 	genTTL()
 	genResolv()
 	genClientInfo()
+	genQuery()
+	genLocal()
 	if forProp == "" || forProp == "C15" {
 		genLockset()
 	}
